@@ -73,6 +73,25 @@ def run(ctx, kinds, prefix):
                     got = np.asarray(est.in_system(np.array(r["x"], float) / s["D"])).astype(bool).tolist()
                     if got != r["ans"]:
                         ctx.violation(prefix + ".helper-in-system", w, dict(sys=s, x=r["x"]), r["ans"], got)
+            elif k == "signif":
+                # exact decimal ties (e.g. 25 to one digit) depend on the binary round-off of x * 10^-k: observed only
+                got = float(dreye.round_to_significant_digits(float(st["x"]), st["p"]))
+                if st["tie"]:
+                    ctx.count("helper observation: round_to_significant_digits decimal tie (not asserted)")
+                elif abs(got - st["r"]) > 1e-9 * max(1.0, abs(st["r"])):
+                    ctx.violation(prefix + ".helper-signif", w, st, st["r"], got)
+                arr = np.asarray(dreye.round_to_significant_digits(np.array([st["x"], 0.0, np.inf, -st["x"]], float), st["p"]))
+                if not st["tie"] and (abs(arr[0] - st["r"]) > 1e-9 * max(1.0, abs(st["r"])) or arr[1] != 0 or arr[2] != np.inf or abs(arr[3] + st["r"]) > 1e-9 * max(1.0, abs(st["r"]))):
+                    ctx.violation(prefix + ".helper-signif", dict(what="array with 0 and inf", **w), st, [st["r"], 0, "inf", -st["r"]], arr.tolist())
+            elif k == "norms":
+                v = np.array(st["v"], float)
+                l1 = float(dreye.l1norm(v))
+                l2 = float(dreye.l2norm(v))
+                M = np.stack([v, 2 * v])
+                if l1 != st["l1"] or abs(l2 * l2 - st["l2sq"]) > 1e-9 * (1 + st["l2sq"]):
+                    ctx.violation(prefix + ".helper-norms", w, st, [st["l1"], st["l2sq"]], [l1, l2 * l2])
+                if np.asarray(dreye.l1norm(M)).tolist() != [st["l1"], 2 * st["l1"]] or np.asarray(dreye.l1norm(M, axis=0, keepdims=True)).shape != (1, 3):
+                    ctx.violation(prefix + ".helper-norms", dict(what="axis/keepdims", **w), st, None, np.asarray(dreye.l1norm(M)).tolist())
             elif k == "grid":
                 G = dreye.d_equally_spaced(st["n"], st["d"], one_inclusive=st["incl"])
                 want = np.unique(np.round(np.array([[fr(v) for v in p] for p in st["pts"]]), 12), axis=0)
